@@ -4,9 +4,11 @@
 # Result: seeded/MATRIX.tsv   (mutant, check, exit code, seconds)
 cd /verif
 declare -A EXTRA=( [C01-m1]="C05" [C01-m2]="C09" [C01-m3]="C10" [C02-m1]="C06 C05" [C02-m2]="C10" [C18-m1]="C12" [C11-m2]="C01 C02" [C07-m1]="C19" [C07-m2]="C09" [C03-m1]="C11" [C14-m2]="C05" )
-out=seeded/MATRIX.tsv
+pattern=${1:-C*-m*}
+out=${2:-seeded/MATRIX.tsv}
 : > $out
-for d in seeded/C*-m*/; do
+EXTRA[C01-r2m1]="C09"; EXTRA[C01-r2m2]="C06 C05"; EXTRA[C09-r2m1]="C01 C11"; EXTRA[C09-r2m2]="C01"; EXTRA[C05-r2m3]="C01"; EXTRA[C19-r2m2]="C11"
+for d in seeded/$pattern/; do
   m=$(basename $d); pid=${m%%-*}
   for chk in $pid ${EXTRA[$m]:-}; do
     t0=$(date +%s)
